@@ -106,6 +106,8 @@ def in_domain(case):
         chunks, plans = case["chunks"], case["plans"]
         if not 1 <= len(chunks) <= 6 or len(plans) != 2:
             return False
+        if case.get("style") not in (None, "shared_view"):
+            return False
         win = case.get("window")
         if win is not None and not (isinstance(win, list) and len(win) == 3
                                     and all(type(x) is int and 0 <= x <= 64 for x in win)):
@@ -284,15 +286,25 @@ def check_case(c, case, res=None):
     results = []
     for pi, plan in enumerate(plans):
         win = case.get("window")
+        style = case.get("style")
+        wrap = memoryview if style == "shared_view" else bytes
         if win:
             # the chunks arrive as a window into a larger receive buffer (slice of a reader over it)
             pre = bytes((0xFF if (i + win[2]) % 3 == 0 else 0x01) for i in range(win[0]))
             suf = bytes((0xFF if (i + win[2]) % 2 == 0 else 0x02) for i in range(win[1]))
-            status, r = wrgen.call(lambda: c.data.EoReader(pre + data + suf).slice(len(pre), len(data)))
+            whole = wrap(pre + data + suf)
+            status, r = wrgen.call(lambda: c.data.EoReader(whole).slice(len(pre), len(data)))
         else:
-            status, r = wrgen.call(c.data.EoReader, data)
+            whole = wrap(data)
+            status, r = wrgen.call(c.data.EoReader, whole)
         if status == "exc":
             raise Violation("reader_constructed", case, "EoReader(data)", r)
+        if style == "shared_view":
+            # the caller's receive buffer is ONE memoryview object: another short-lived reader over the very
+            # same object peeks at it and is dropped while the reader under observation carries on
+            status, peek = wrgen.call(lambda: c.data.EoReader(whole).get_byte())
+            if status == "exc":
+                raise Violation("reader_constructed", case, "a second EoReader over the same memoryview", peek)
         r.chunked_reading_mode = True
         per_chunk = []
         for ci, (ch, (k, surplus)) in enumerate(zip(chunks, plan)):
@@ -426,14 +438,17 @@ def _chunk():
 
 
 def case_strategy():
-    def build(cs, win):
+    def build(cs, win, style):
         case = {"chunks": [c[0] for c in cs], "plans": [[c[1] for c in cs], [c[2] for c in cs]]}
         if win[0] or win[1]:
             case["window"] = list(win)
+        if style:
+            case["style"] = style
         return case
 
     window = st.one_of(st.just((0, 0, 0)), st.tuples(st.integers(0, 6), st.integers(0, 6), st.integers(0, 5)))
-    return st.builds(build, st.lists(_chunk(), min_size=1, max_size=6), window)
+    style = st.sampled_from([None, None, None, None, "shared_view"])
+    return st.builds(build, st.lists(_chunk(), min_size=1, max_size=6), window, style)
 
 
 LONG_LENGTHS = (250, 253, 255, 256, 64006, 64007, 64008, 64009, 64010, 65535, 65536, 70001)
